@@ -183,6 +183,9 @@ def run(chk: Check):
     from .. import constfold
     rule_k6(chk, constfold.fold_tokenize(), ix, False)
     rule_w1(chk, ir, False, "W1-memo-barrier")
+    from .c07 import rule_m1, rule_m2
+    rule_m1(chk, ix)   # where a raw capture ends decides where the next statement starts
+    rule_m2(chk, ix)
     from .c08 import rule_l5
     rule_l5(chk, ix)
     chk.floor("M3-flag-typestate", 12)
